@@ -286,6 +286,54 @@ def main(tier):
                 raise ir.AnalysisBroken("%s now writes the member %s (%s), which its operator signature in the driver analysis does not describe" % (e, m_, loc))
         else:
             raise ir.AnalysisBroken("%s writes the member %s of its operator object (%s): the operator keeps state between applications, which the one-application analyses of C03/C04/C06/C07/C08 do not model" % (q, m_, loc))
+    # ---- R-C13-7: what the driver analysis calls an 'out' parameter really is one.  The operator signature table says which
+    # vector a summarised function overwrites completely; the value-flow then forgets that vector's previous contents.  If the
+    # function reads the parameter (or updates it with +=), whatever an earlier solve left there flows into the result.
+    ck.rule("R-C13-7", "a parameter that the operator signature table calls 'out' is only ever the target of plain assignments in the summarised function (never read, never updated in place)", floor=8)
+    for qn_, roles in sorted(drv.SIGS.items()):
+        for f_ in [f for f in whole.fns(qn_) if len(f["params"]) == len(roles)]:
+            for p_, role in zip(f_["params"], roles):
+                if role != "out":
+                    continue
+                key = "%s(%s)" % (qn_, p_["name"])
+                ck.instance("R-C13-7", key)
+                plain_targets, bad = set(), None
+                aliases = set()     # `double& dst = result[i];`: a name for one element, not a read of it
+
+                def elem_of_param(t):
+                    while t.get("k") in ("Paren", "Cast", "ImplicitCast") and t.get("e") is not None:
+                        t = t["e"]
+                    if t.get("k") == "Ref" and t.get("id") in aliases:
+                        return True
+                    if t.get("k") == "Index" and t["base"].get("k") == "Ref" and t["base"].get("id") == p_["id"]:
+                        return True
+                    if t.get("k") == "OpCall" and t.get("op") == "[]" and t.get("args") and t["args"][0].get("k") == "Ref" and t["args"][0].get("id") == p_["id"]:
+                        return True
+                    return False
+                for n in ir.walk(f_["body"]):
+                    if n.get("k") == "Decl":
+                        for v_ in n.get("vars", []):
+                            t_ = (v_.get("t") or "").rstrip()
+                            if t_.endswith("&") and not t_.startswith("const ") and v_.get("init") is not None and elem_of_param(v_["init"]):
+                                aliases.add(v_["id"])
+                                plain_targets.add(id(v_["init"]))
+                for n in ir.walk(f_["body"]):
+                    if n.get("k") == "Assign" and elem_of_param(n["a"]):
+                        if n.get("op") == "=":
+                            plain_targets.add(id(n["a"]))
+                        else:
+                            bad = bad or ("updated in place with `%s` at %s" % (n.get("op"), ir.locstr(n)))
+                    elif n.get("k") == "Un" and n.get("op") in ("++", "--") and elem_of_param(n["e"]):
+                        bad = bad or ("updated in place with `%s` at %s" % (n.get("op"), ir.locstr(n)))
+                if not bad:
+                    for n in ir.walk(f_["body"]):
+                        if elem_of_param(n) and id(n) not in plain_targets:
+                            bad = "read at %s" % ir.locstr(n)
+                            break
+                if bad:
+                    ck.violation("R-C13-7", "%s:%s" % (qn_, p_["name"]), ir.locstr(f_), "%s: the parameter `%s`, which the driver analysis treats as completely overwritten, is %s: its previous contents (what an earlier solve or cycle left there) flow into the result" % (qn_, p_["name"], bad))
+                else:
+                    ck.ok("R-C13-7", key)
     ck.extra["modes"] = n_modes
     ck.extra["paths"] = n_paths
     return ck.finish(
